@@ -27,4 +27,10 @@ PROPS = {
         "trusted_base": ["net.Listen / net.Dial / the file system are the environment of the model (a valid address may still fail to bind; generated endpoints known to be listenable must bind)"],
         "assumptions": ["error classes are recognised by the three fixed error texts of Bind/parseAddress"],
     },
+    "C13": {
+        "streams": streams(("reg", 600, 20000)),
+        "rule": "random identity strings and description texts (valid UTF-8, any Unicode) x histories of 1-10 operations over {register (pool of names incl. duplicates, org.varlink.service, the empty name, unicode), listen, connection opens, connection closes, shutdown} followed by settling and a final registration; per history the refusal class of every registration, Connection.GetInfo, Connection.GetInterfaceDescription for every pool/tried/unknown name, and Resolver.GetInfo/Resolve against a resolver interface answering with varying key capitalisation; non-trivial = a history with a refused registration",
+        "trusted_base": [JSON_TB, "unix abstract sockets as transport of the queries"],
+        "assumptions": ["interface names asked for are arbitrary; the registered-description theorem carries the guard name != \"\" (an interface registered under the empty name is listed but can never be described)"],
+    },
 }
